@@ -55,6 +55,27 @@ def _has_call(e):
     return any(isinstance(n, (ast.Call, ast.Await, ast.Yield, ast.YieldFrom, ast.NamedExpr)) for n in ast.walk(e))
 
 
+def _const_str(e):
+    """the text of a string expression made of literals only: "a", "a" + "b", f"{'a'}_b" (what a name parameter becomes once the helper that
+    took it has been inlined); None otherwise"""
+    if isinstance(e, ast.Constant) and isinstance(e.value, str):
+        return e.value
+    if isinstance(e, ast.BinOp) and isinstance(e.op, ast.Add):
+        a, b = _const_str(e.left), _const_str(e.right)
+        return a + b if a is not None and b is not None else None
+    if isinstance(e, ast.JoinedStr):
+        parts = []
+        for v in e.values:
+            if isinstance(v, ast.Constant) and isinstance(v.value, str):
+                parts.append(v.value)
+            elif isinstance(v, ast.FormattedValue) and v.conversion == -1 and v.format_spec is None and isinstance(v.value, ast.Constant) and isinstance(v.value.value, str):
+                parts.append(v.value.value)
+            else:
+                return None
+        return "".join(parts)
+    return None
+
+
 class _FoldLookup(ast.NodeTransformer):
     """{k1: v1, ...}[k] with constant keys and constant k -> the selected value"""
 
@@ -118,9 +139,10 @@ class Normalise(ast.NodeTransformer):
     def visit_Call(self, n):
         self.generic_visit(n)
         # getattr(x, "name") with a literal identifier is x.name
-        if isinstance(n.func, ast.Name) and n.func.id == "getattr" and len(n.args) == 2 and not n.keywords and isinstance(n.args[1], ast.Constant) \
-                and isinstance(n.args[1].value, str) and n.args[1].value.isidentifier() and not n.args[1].value.startswith("__"):
-            return ast.copy_location(ast.Attribute(value=n.args[0], attr=n.args[1].value, ctx=ast.Load()), n)
+        if isinstance(n.func, ast.Name) and n.func.id == "getattr" and len(n.args) == 2 and not n.keywords:
+            nm = _const_str(n.args[1])
+            if nm is not None and nm.isidentifier() and not nm.startswith("__"):
+                return ast.copy_location(ast.Attribute(value=n.args[0], attr=nm, ctx=ast.Load()), n)
         if self.in_helper:
             return n
         f = n.func
